@@ -5,7 +5,8 @@ Mirrors, in qtoggleserver:
   core/ports.py     BasePort.set_attr / prepare_for_save / save / load / load_from_data / save_loop
   core/vports.py    add / remove / init
   core/api/funcs/ports.py   add_virtual_port, set_port_attrs (PATCH /ports/<id>), delete_port, patch_port_value
-  core/device/__init__.py   load / save ; core/device/attrs.py (password hashes only)
+  core/device/__init__.py   load / save / reset ; core/device/attrs.py (password hashes only);
+  core/api/funcs/device.py  patch_device, put_device (= reset + load + set_attrs + save)
   slaves/devices.py         prepare_for_save / load (record level; disabled slaves only)
 
 The persistence store is modelled as the reference record store (what was stored is what is read back: that is C06's
@@ -282,6 +283,17 @@ def saveDevice (d : Device) : DeviceRec :=
   { name := some d.name, displayName := some d.displayName, adminHash := some d.adminHash,
     normalHash := some d.normalHash, viewonlyHash := some d.viewonlyHash }
 
+/-- "Hash empty passwords" at the end of `device.load()` -/
+def orEmptyHash (cfg : Cfg) (h : String) : String := if h = "" then cfg.emptyHash else h
+
+/-- `core.device.reset(preserve_attrs=[the three password hashes])` followed by `core.device.load()`, as PUT /device
+runs them: the `device` record is removed from the store (`persist.remove('device')`), the attributes module is
+reloaded (name = host name, display name = '', hashes = None) and the three preserved hashes are put back; `load()`
+then finds no record, sets nothing, and hashes whatever password hash is still empty. -/
+def resetDevice (cfg : Cfg) (d : Device) : Device :=
+  { name := cfg.defName, displayName := "", adminHash := orEmptyHash cfg d.adminHash,
+    normalHash := orEmptyHash cfg d.normalHash, viewonlyHash := orEmptyHash cfg d.viewonlyHash }
+
 /-- one port of a boot: statically configured ports first (`ports.load(settings.ports)`), then `vports.init()` -/
 def bootPort (cfg : Cfg) (s : Store) (id : String) : Option (Port × List (Option PVal)) :=
   match cfg.statics id with
@@ -332,6 +344,10 @@ inductive Op where
   | saveTick
   /-- PATCH /device -/
   | patchDev (d : DevPatch)
+  /-- PUT /device (restore of a backup) with a document that passes the loose device schema: the password fields and
+  every attribute that is unknown or not modifiable are ignored (`ignore_extra`); what is left for this model is the
+  name and the display name, each possibly absent from the document -/
+  | putDev (name : Option String) (displayName : Option String)
   /-- PUT /devices -/
   | putSlaves (l : List (String × Slave))
   /-- DELETE /devices/name -/
@@ -412,6 +428,14 @@ def step (cfg : Cfg) (st : State) : Op → State × Resp
                           normalHash := (d.normalPw.map cfg.hash).getD dev.normalHash,
                           viewonlyHash := (d.viewonlyPw.map cfg.hash).getD dev.viewonlyHash }
     ({ st with hub := { st.hub with device := dev }, store := { st.store with device := some (saveDevice dev) } }, .ok)
+  | .putDev name displayName =>
+    -- reset + load: the record is gone from the store, the attributes are back at their defaults, the hashes are kept
+    let st1 : State := { st with hub := { st.hub with device := resetDevice cfg st.hub.device },
+                                 store := { st.store with device := none } }
+    -- set_attrs(params, ignore_extra=True), then device.save()
+    let dev := { st1.hub.device with name := name.getD st1.hub.device.name,
+                                     displayName := displayName.getD st1.hub.device.displayName }
+    ({ st1 with hub := { st1.hub with device := dev }, store := { st1.store with device := some (saveDevice dev) } }, .ok)
   | .putSlaves l =>
     let m : String → Option Slave := fun n => (l.reverse.find? (fun a => a.1 = n)).map (·.2)
     ({ st with hub := { st.hub with slaves := m }, store := { st.store with slaves := m } }, .ok)
